@@ -166,7 +166,13 @@ and jact (Act (id, aif, spec, ins, outs, params, setup, catches, timeouts)) =
 and jcatch (Catch (on, steps)) =
   Json.Obj ((match on with None -> [] | Some k -> [("on", Json.Str (Printf.sprintf "e%d" (int_of_nat k)))]) @ [("steps", Json.Arr (List.map jstep steps))])
 and jtmo (Tmo (on, _, steps)) =
-  Json.Obj [("on", Json.Str (limit_name (int_of_nat on))); ("steps", Json.Arr (List.map jstep steps))]
+  (* one limit in eight is written in a legal non-canonical way (a sign, a leading zero): the same duration *)
+  let k = int_of_nat on in
+  let text = (match (k * 7 + List.length steps) mod 8 with
+              | 0 -> "+" ^ limit_name k
+              | 1 -> "0" ^ limit_name k
+              | _ -> limit_name k) in
+  Json.Obj [("on", Json.Str text); ("steps", Json.Arr (List.map jstep steps))]
 let jworkflow (w : workflow) : Json.t =
   Json.Obj ([("id", Json.Str (nname w.w_id)); ("steps", Json.Arr (List.map jstep w.w_steps))]
             @ nonempty "setup" w.w_setup (fun a -> Json.Obj (jspec_fields a))
